@@ -345,6 +345,21 @@ class TempCheck:
                     name = target.id
                 elif isinstance(target, ast.Tuple) and 0 <= index < len(target.elts) and isinstance(target.elts[index], ast.Name):
                     name = target.elts[index].id  # type: ignore[attr-defined]
+                if name is None and isinstance(target, ast.Name) and index >= 0:
+                    # the whole result is kept in a local and the file name is picked out of it on the next statement
+                    for holder in ast.walk(caller.node):
+                        for field in ("body", "orelse", "finalbody"):
+                            block = getattr(holder, field, None)
+                            if isinstance(block, list) and stmt in block:
+                                position = block.index(stmt)
+                                following = block[position + 1] if position + 1 < len(block) else None
+                                if (
+                                    isinstance(following, ast.Assign) and isinstance(following.targets[0], ast.Name)
+                                    and isinstance(following.value, ast.Subscript) and isinstance(following.value.value, ast.Name)
+                                    and following.value.value.id == target.id and isinstance(following.value.slice, ast.Constant)
+                                    and following.value.slice.value == index
+                                ):
+                                    name, stmt = following.targets[0].id, following
                 if name is None:
                     self.rule.fail(f"{caller.short}: drops temp from {func.short}", site.where, "returned temporary file is not bound to a name")
                     continue
